@@ -56,7 +56,7 @@ def unit_closure(units):
     return order
 
 
-def run_verus(path, rlimit, seed, extra=None, timeout=900, multiple_errors=4):
+def run_verus(path, rlimit, seed, extra=None, timeout=300, multiple_errors=4):
     cmd = [VERUS, os.path.basename(path), '--error-format=json', '--output-json', '--time-expanded',
            '--rlimit', str(rlimit), '--multiple-errors', str(multiple_errors), '--triggers-mode', 'silent']
     if seed:
@@ -183,7 +183,7 @@ def process_unit(unit, rlimit, seed, do_vacuity):
         return ur
     with cf.ThreadPoolExecutor(max_workers=2) as ex:
         fm = ex.submit(run_verus, path, rlimit, seed)
-        fv = ex.submit(run_verus, ur.vpath, 3, seed, None, 900, 0) if do_vacuity else None
+        fv = ex.submit(run_verus, ur.vpath, 3, seed, None, 300, 0) if do_vacuity else None
         ur.main = fm.result()
         ur.vac = fv.result() if fv else None
     return ur
@@ -406,8 +406,10 @@ def main(argv):
     cls = {u: classify(r) for u, r in runs.items()}
     # one retry with 4x rlimit / other seed for resource-limited units
     for u in units:
-        if cls[u]['status'] == 'resource':
-            r2 = process_unit(u, rlimit * 4, seed + 7919, u in spec['units'])
+        # one retry (3x rlimit, other seed) for a unit that ran out of resources quickly; a unit that
+        # already burned a lot of time is not retried (a slow query is an unstable query, not a bug)
+        if cls[u]['status'] == 'resource' and runs[u].main and runs[u].main['wall'] < 60:
+            r2 = process_unit(u, rlimit * 3, seed + 7919, u in spec['units'])
             runs[u] = r2
             cls[u] = classify(r2)
             cls[u]['notes'].append('retried with rlimit x4')
